@@ -14,7 +14,7 @@
    identifier (the parser's identifier rule reads it).  Executable; no proofs in this file. *)
 From Coq Require Import List NArith Bool Arith.
 From Verif Require Import Base.Res Base.Text Gen.GenTokens Model.Lexer Model.ExprParser Model.StParser Model.StInstance
-  Proofs.StExprProofs Proofs.StStmtProofs.
+  Model.DeclParser Proofs.StExprProofs Proofs.StStmtProofs Proofs.DeclProofs.
 Import ListNotations.
 
 Definition tkk (k : tok_kind) (tx : text) : token := mkToken k 0%N 0%N 0%N 0%N tx.
@@ -277,3 +277,61 @@ Fixpoint ss_of (s : stmt) : rss :=
 (* what the renderer writes for a statement list *)
 Definition render_list (l : list stmt) : list token :=
   match l with [] => [] | x :: l' => flat_l token (list_sp ss_of x l') end.
+
+(* ---- variable declarations: visit_var_decl writes one block per variable,
+        VAR_x [qualifier] \n  name : type [:= value] ; \n END_VAR \n,  all variables first, then the edge-detecting inputs
+        (visit_edge_var_decl:  VAR_INPUT [qualifier] \n  name : BOOL R_EDGE ; \n END_VAR) ---- *)
+Definition elem_kinds : list tok_kind :=
+  [KBool; KSint; KInt; KDint; KLint; KUsint; KUint; KUdint; KUlint; KReal; KLreal; KTime; KDate; KTimeOfDay; KDateAndTime; KByte; KWord; KDword; KLword].
+(* the token a type name is written with: the keyword of an elementary type, an identifier otherwise *)
+Definition ty_tok (ty : text) : token :=
+  match find (fun k => text_eqb (ty_name (kwt k)) ty) elem_kinds with
+  | Some k => kwt k
+  | None => id_tok ty
+  end.
+Definition is_elem (ty : text) : bool :=
+  match find (fun k => text_eqb (ty_name (kwt k)) ty) elem_kinds with Some _ => true | None => false end.
+
+Definition const_sp (l : sleaf) : sconst token :=
+  match l with
+  | LfInt false v => ScTok token (int_tok v) CkInt
+  | LfInt true v => ScMinus token minus_t (int_tok v)          (* not what is written ('- 5'): outside the guard *)
+  | LfBool b => ScBool token bool_t hash_t (if b then true_t else false_t) b
+  | LfStr c => ScTok token (str_tok c) (str_kind c)
+  | LfName n => ScTok token (id_tok n) CkInt                   (* no constant: outside the guard *)
+  end.
+Definition spec_sp (i : dinit) : sspec token :=
+  match i with
+  | DSimple ty None => if is_elem ty then SpElem token (ty_tok ty) else SpNamed token (ty_tok ty)
+  | DSimple ty (Some c) =>
+      if is_elem ty then SpElemInit token (ty_tok ty) ws1 assign_t ws1 (const_sp c)
+      else SpNamedInit token (ty_tok ty) ws1 assign_t ws1 (const_sp c)
+  | DEnumType ty v => SpNamedEnum token (ty_tok ty) ws1 assign_t ws1 (id_tok v)
+  | DLate ty => SpNamed token (ty_tok ty)
+  end.
+Definition class_kw (c : dclass) : token :=
+  match c with
+  | DcInput => kwt KVarInput | DcOutput => kwt KVarOutput | DcInOut => kwt KVarInOut | DcExternal => kwt KVarExternal | DcVar => kwt KVar
+  end.
+Definition qual_sp (q : dqual) : sqkw token :=
+  match q with
+  | DqNone => QNone token
+  | DqConst => QSome token ws1 (kwt KConstant)
+  | DqRetain => QSome token ws1 (kwt KRetain)
+  | DqNonRetain => QSome token ws1 (kwt KNonRetain)
+  end.
+Definition one_name (n : text) : snames token := mkNames token (id_tok n) [].
+Definition decl_sp (d : ditem) : sdecl token :=
+  match d with
+  | DVar n DcInOut _ i => SdInOut token (one_name n) ws1 colon_t ws1 (ty_tok (match i with DSimple ty _ | DEnumType ty _ | DLate ty => ty end))
+  | DVar n DcExternal _ i => SdExt token (id_tok n) ws1 colon_t ws1 (ty_tok (match i with DSimple ty _ | DEnumType ty _ | DLate ty => ty end))
+  | DVar n _ _ i => SdVar token (one_name n) ws1 colon_t ws1 (spec_sp i)
+  | DEdge n rising _ => SdEdge token (one_name n) ws1 colon_t ws1 bool_t ws1 (kwt (if rising then KREdge else KFEdge)) rising
+  end.
+Definition block_sp (d : ditem) : sblock token :=
+  let '(c, q) := match d with DVar _ c q _ => (c, q) | DEdge _ _ q => (DcInput, q) end in
+  mkBlock token (class_kw c) (qual_sp q) nl1 (DsSome token (decl_sp d) [] [] semi_t) nl1 (kwt KEndVar).
+Definition wb_sp (d : ditem) : swb token := WB token nl1 (block_sp d).
+
+(* what the renderer writes for a function block: the variables, the edge inputs, the statements *)
+Definition render_decls (ds : list ditem) : list token := flat_wbs token (map wb_sp ds).
